@@ -131,7 +131,7 @@ struct Ctx {
     if (k.cfg != "*" && cfgname.find(k.cfg) == std::string::npos) return false;
     if (k.kind == "site") {
       if (!site_kind) return false;
-      return k.site_kind == site_kind && k.site_file == site_file && k.site_line == site_line;
+      return (k.site_kind == "*" || k.site_kind == site_kind) && k.site_file == site_file && k.site_line == site_line;
     }
     for (const KfRange& r : k.box) {
       if (r.idx < 0 || (size_t)r.idx >= args->size()) return false;
